@@ -167,11 +167,15 @@ Qed.
 Lemma rc_so_set o kvs : raise_clean (so_set o kvs).
 Proof.
   unfold so_set. apply rc_bind; [apply rc_gets|apply rol_gets|intros i].
+  apply rc_bind; [destruct (is_lazy (i_k i) && _); [apply rc_raise|apply rc_ret]
+                 |destruct (is_lazy (i_k i) && _); [intros s a s' H; discriminate|apply rol_ret]|intros _].
   apply rc_bind; [apply rc_validate_all|apply rol_validate_all|intros _].
+  apply rc_bind; [destruct (existsb _ kvs); [apply rc_raise|apply rc_ret]
+                 |destruct (existsb _ kvs); [intros s a s' H; discriminate|apply rol_ret]|intros _].
   destruct (is_lazy (i_k i)).
   - intros s e s' H. discriminate.
   - apply rc_bind_final.
-    + destruct (as_dict kvs); [apply rc_ret|apply rc_db_update].
+    + destruct (filter _ (as_dict kvs)); [apply rc_ret|apply rc_db_update].
     + intros _. destruct (cache_values (i_k i) && negb (i_expired i)); [apply nr_upd_inst|apply nr_ret].
 Qed.
 
